@@ -67,6 +67,11 @@ fn byte_ranks() -> Vec<u32> {
 }
 
 impl Spec {
+    /// An empty end-of-word suffix is documented to mean "no suffix" (`Bpe::new` normalises it).
+    fn eff_eow(&self) -> Option<&String> {
+        self.eow.as_ref().filter(|e| !e.is_empty())
+    }
+
     fn request(&self) -> String {
         let v = match &self.vocab {
             None => "auto".to_string(),
@@ -95,7 +100,7 @@ impl Spec {
             "bpe V={} A={} E={} M={} I={} {}",
             v,
             if self.alpha.is_empty() { "-" } else { self.alpha.as_str() },
-            self.eow.clone().unwrap_or("-".into()),
+            self.eow.as_ref().map_or("-".to_string(), |e| show_tok(e)),
             m,
             self.ignore as u8,
             p
@@ -150,11 +155,11 @@ fn oracle_vocab(spec: &Spec) -> HashMap<String, u32> {
             // documented layout: bytes 0..256 by "printable first" rank, then byte+suffix, then merges
             for (ch, rank) in byte_chars().into_iter().zip(byte_ranks()) {
                 v.insert(ch.to_string(), rank);
-                if let Some(sfx) = &spec.eow {
+                if let Some(sfx) = spec.eff_eow() {
                     v.insert(format!("{ch}{sfx}"), 256 + rank);
                 }
             }
-            let start = if spec.eow.is_some() { 512 } else { 256 };
+            let start = if spec.eff_eow().is_some() { 512 } else { 256 };
             for (i, (a, b)) in spec.merges.iter().enumerate() {
                 v.insert(format!("{a}{b}"), start + i as u32);
             }
@@ -247,7 +252,7 @@ fn one_bpe(out: &mut Out, spec: &Spec, tag: &str) {
                         continue;
                     }
                 }
-                if let (Some(sfx), Some(l)) = (&spec.eow, init.last_mut()) {
+                if let (Some(sfx), Some(l)) = (spec.eff_eow(), init.last_mut()) {
                     l.push_str(sfx);
                 }
                 if ids.len() < init.len() {
@@ -268,7 +273,7 @@ fn one_bpe(out: &mut Out, spec: &Spec, tag: &str) {
                             ));
                         }
                     }
-                    None if spec.vocab.is_some() && spec.eow.is_some() => {
+                    None if spec.vocab.is_some() && spec.eff_eow().is_some() => {
                         out.bucket("eow_token_missing_from_supplied_vocab(oracle n/a)");
                     }
                     None => {
@@ -462,9 +467,10 @@ fn random_bpe(out: &mut Out, rng: &mut Rng) {
     let letters = ['a', 'b', 'c', 'd', 'e', 'f'];
     let na = 2 + rng.usize_below(5);
     let alpha: Vec<char> = letters[..na].to_vec();
-    let eow = if rng.chance(1, 5) { Some("</w>".to_string()) } else { None };
+    // `Some("")` must behave exactly like `None`
+    let eow = if rng.chance(1, 5) { Some("</w>".to_string()) } else if rng.chance(1, 12) { Some(String::new()) } else { None };
     let mut avail: Vec<String> = alpha.iter().map(|c| c.to_string()).collect();
-    if let Some(s) = &eow {
+    if let Some(s) = eow.as_ref().filter(|e| !e.is_empty()) {
         for c in &alpha {
             avail.push(format!("{c}{s}"));
         }
@@ -493,8 +499,9 @@ fn random_bpe(out: &mut Out, rng: &mut Rng) {
         let a = rng.pick(&avail).clone();
         let b = rng.pick(&avail).clone();
         // a token carrying the end-of-word suffix can only be the right operand
-        let (a, b) = if eow.as_ref().map_or(false, |s| a.ends_with(s.as_str())) { (b, a) } else { (a, b) };
-        if eow.as_ref().map_or(false, |s| a.ends_with(s.as_str())) {
+        let has_sfx = |t: &String| eow.as_ref().map_or(false, |s| !s.is_empty() && t.ends_with(s.as_str()));
+        let (a, b) = if has_sfx(&a) { (b, a) } else { (a, b) };
+        if has_sfx(&a) {
             continue;
         }
         let m = format!("{a}{b}");
@@ -514,7 +521,7 @@ fn random_bpe(out: &mut Out, rng: &mut Rng) {
     // ids unrelated to `id(letter) + 256` (sometimes it omits them: fallback path, oracle n/a)
     let vocab = if rng.chance(3, 10) {
         let mut keys: Vec<String> = alpha.iter().map(|c| c.to_string()).collect();
-        if let Some(sfx) = &eow {
+        if let Some(sfx) = eow.as_ref().filter(|e| !e.is_empty()) {
             if !rng.chance(1, 10) {
                 for c in &alpha {
                     keys.push(format!("{c}{sfx}"));
@@ -535,7 +542,7 @@ fn random_bpe(out: &mut Out, rng: &mut Rng) {
         let mut ids: Vec<u32> = (0..keys.len() as u32 * 2).collect();
         rng.shuffle(&mut ids);
         let mut listed: Vec<(String, u32)> = keys.into_iter().zip(ids).collect();
-        tag = if eow.is_some() { "random_supplied_vocab_eow" } else { "random_supplied_vocab" };
+        tag = if eow.as_ref().map_or(false, |e| !e.is_empty()) { "random_supplied_vocab_eow" } else { "random_supplied_vocab" };
         if rng.chance(1, 8) && listed.len() > 1 {
             let i = rng.usize_below(listed.len());
             let j = rng.usize_below(listed.len());
@@ -552,6 +559,9 @@ fn random_bpe(out: &mut Out, rng: &mut Rng) {
         None
     };
     let ignore = rng.chance(1, 8);
+    if eow.as_ref().map_or(false, |e| e.is_empty()) {
+        out.bucket("empty_eow_suffix");
+    }
     let spec = Spec { vocab, alpha: alpha.iter().collect(), eow, merges, pieces, ignore };
     one_bpe(out, &spec, tag);
 }
@@ -725,6 +735,10 @@ fn run(args: &Args) {
     let mut ign = s(&[("a", "b"), ("ab", "c")], &["ab", "abc", "abcab", "c"]);
     ign.ignore = true;
     one_bpe(&mut out, &ign, "witness");
+    // empty end-of-word suffix = no suffix (ids 64,65 for `ab`, not 320,321)
+    let mut empty_sfx = s(&[("b", "a")], &["ab", "barbar", "ba"]);
+    empty_sfx.eow = Some(String::new());
+    one_bpe(&mut out, &empty_sfx, "witness");
     let mut bytes = s(&[("Ġ", "a"), ("Ã", "©")], &[" a é", "\n", "a a"]);
     bytes.alpha = String::new();
     one_bpe(&mut out, &bytes, "witness");
